@@ -174,12 +174,17 @@ func c11Cases(c runCfg) ([]*scratch.Pkg, []string, map[string]interface{}) {
 		op1 := &dialect.Op{Method: "GET", Security: s1, Responses: []dialect.Response{{Status: "200"}}}
 		op2 := &dialect.Op{Method: "POST", Security: s2, Responses: []dialect.Response{{Status: "200"}}}
 		op3 := &dialect.Op{Method: "PUT", Security: &[]dialect.Requirement{}, Responses: []dialect.Response{{Status: "200"}}}
-		paths := []string{"/a", "/a", "/a"}
+		// the shape of the path decides which branch of the Route template renders the operation:
+		// literal leaf, variable leaf, variable at the root, literal below a variable, the root itself
+		shape := [][2]string{{"/a", "/b"}, {"/a/{id}", "/b/{id}"}, {"/{id}", "/b/{id}"}, {"/a/{id}/c", "/a/{id}"}, {"/", "/{id}"}}[i%5]
+		dist["shape:"+shape[0]]++
+		inst := func(raw string) string { return strings.ReplaceAll(raw, "{id}", "7") }
+		paths := []string{inst(shape[0]), inst(shape[0]), inst(shape[0])}
 		if cf.share {
-			sp.Paths = []*dialect.PathItem{{Raw: "/a", Ops: []*dialect.Op{op1, op2, op3}}}
+			sp.Paths = []*dialect.PathItem{{Raw: shape[0], Params: pathParams(shape[0]), Ops: []*dialect.Op{op1, op2, op3}}}
 		} else {
-			sp.Paths = []*dialect.PathItem{{Raw: "/a", Ops: []*dialect.Op{op1, op3}}, {Raw: "/b", Ops: []*dialect.Op{op2}}}
-			paths[1] = "/b"
+			sp.Paths = []*dialect.PathItem{{Raw: shape[0], Params: pathParams(shape[0]), Ops: []*dialect.Op{op1, op3}}, {Raw: shape[1], Params: pathParams(shape[1]), Ops: []*dialect.Op{op2}}}
+			paths[1] = inst(shape[1])
 		}
 		rc := rcase{Pkg: fmt.Sprintf("p%04d", i), Spec: sp}
 		p := rc.ScratchPkg()
